@@ -111,6 +111,15 @@ func c20Run(r *core.Run) {
 		sampleAt = append(sampleAt, at)
 	}
 	sort.Slice(sampleAt, func(i, j int) bool { return sampleAt[i] < sampleAt[j] })
+	// key look-ups by a user of the server, between the checks (off the event grid, too)
+	lookups := t.Chance(1, 2, "key-lookups")
+	var lookupAt []time.Duration
+	if lookups {
+		for i := 0; i < 4+t.Choose(20, "nlookups"); i++ {
+			lookupAt = append(lookupAt, time.Duration(t.Choose(int(horizon/(10*time.Millisecond))+1, "lookup-at"))*10*time.Millisecond+3*time.Millisecond)
+		}
+		sort.Slice(lookupAt, func(i, j int) bool { return lookupAt[i] < lookupAt[j] })
+	}
 	closeAt := sampleAt[t.Choose(len(sampleAt), "close-after-sample")] + 10*time.Millisecond
 	if t.Chance(1, 8, "close-early") {
 		closeAt = 5 * time.Millisecond // before or inside the very first check
@@ -141,6 +150,13 @@ func c20Run(r *core.Run) {
 			}
 			cfg.Keys[fmt.Sprintf("key%d", i)] = kc
 		}
+		// somebody uses the keys while the checks go on: key look-ups through the
+		// same token stack (cache, metrics) the checker pings
+		pki := world.PKI()
+		cfg.Clients = map[string]*config.ClientConfig{pki["client-fp-1"].Fingerprint: {Nickname: "alice", Roles: []string{"r1"}}}
+		for i := 0; i < ntok; i++ {
+			w.SetKey(fmt.Sprintf("key%d", i), &world.KeyMaterial{Signer: pki["sign-ec-a"].Key, ID: []byte{byte(i + 1)}, Chain: pki["sign-ec-a"].Cert.Raw})
+		}
 		must(cfg.Normalize(""))
 		world.Bind(w)
 		w.TokenPlan = func(tok *world.SimToken, op, key string, n int) world.TokOutcome {
@@ -159,6 +175,22 @@ func c20Run(r *core.Run) {
 			return
 		}
 		h := srv.Handler()
+		if lookups && !noTokens {
+			w.Sched.Go("user", func() {
+				for _, at := range lookupAt {
+					if at > closeAt {
+						return
+					}
+					if d := at - w.Since(); d > 0 {
+						w.Sleep(d)
+					}
+					resp := serve(h, reqSpec{Method: "GET", Path: fmt.Sprintf("/keys/key%d", len(lookupAt)%ntok), Peer: "192.0.2.8:40001", TLS: pki["client-fp-1"]})
+					if resp.Code == 200 {
+						r.Probe("key-lookup-between-checks")
+					}
+				}
+			})
+		}
 		for _, at := range sampleAt {
 			if at > closeAt {
 				break
